@@ -74,6 +74,15 @@ def run_hier(c):
     order = [built.index(k) + 1 for k in reversed(final.__mro__) if k in built]
     if order != VISIT[h]:
         return {"machinery": "unexpected MRO %s" % order}
+    if c.get("pre"):
+        # the base classes (those that can be) are instantiated, bound and read first
+        for j, k in enumerate(built[:-1]):
+            try:
+                b = k()
+                setup_tunables(b, "smdef_%d_%d_b%d" % (os.getpid(), uid, j))
+                list(b.state_names), list(b.state_descriptions)
+            except Exception:  # noqa
+                pass
     try:
         obj = final()
     except Exception as e:  # noqa
